@@ -90,7 +90,9 @@ def temporal_dag(G, u, v=None, start=None, end=None):
         to_remove = []
         to_add = []
         for an in active:
-            neighbors = {f"{n}_{tid}": None for n in G.neighbors(node_type(str(an).split("_")[0]), tid)}
+            # DAG node names are "<node>_<tid>": strip the time suffix only, node ids may contain "_" themselves
+            node = u if an == u else node_type(str(an).rsplit("_", 1)[0])
+            neighbors = {f"{n}_{tid}": None for n in G.neighbors(node, tid)}
             if v is not None:
                 if f"{v}_{tid}" in neighbors:
                     targets[f"{v}_{tid}"] = None
@@ -102,10 +104,9 @@ def temporal_dag(G, u, v=None, start=None, end=None):
                 to_remove.append(an)
 
             for n in neighbors:
-                if isinstance(an, node_type):
-                    if not isinstance(an, str) or (isinstance(an, str) and '_' not in an):
-                        an = f"{an}_{tid}"
-                        sources[an] = None
+                if an == u:
+                    an = f"{an}_{tid}"
+                    sources[an] = None
 
                 DG.add_edge(an, n)
                 to_add.append(n)
